@@ -29,7 +29,7 @@ import sys
 
 sys.path.insert(0, os.path.dirname(os.path.abspath(__file__)))
 from rtok import (Tok, tokenize, render, texts, match_close, parse_item, parse_items, find_item, find_items,
-                  SPEC_CLAUSE_KW, find_fn_body_open, skip_attrs)
+                  SPEC_CLAUSE_KW, find_fn_body_open, find_spec_body_open, skip_attrs)
 
 
 class LostAnchor(Exception):
@@ -112,22 +112,17 @@ def _loop_head(toks, i, hi):
         if toks[j].kind == 'ident' and toks[j + 1].text == ':':
             _mark(toks, j, j + 2)
             j += 2
-    first_clause = None
     while j < hi:
         t = toks[j]
         if t.kind == 'punct' and t.text in '([':
             j = match_close(toks, j) + 1
             continue
-        if t.kind == 'ident' and t.text in LOOP_CLAUSE_KW and first_clause is None and toks[j - 1].text != '.':
-            first_clause = j
+        if t.kind == 'ident' and t.text in LOOP_CLAUSE_KW and toks[j - 1].text != '.':
+            b = find_spec_body_open(toks, j, hi)
+            _mark(toks, j, b)
+            return b
         if t.kind == 'punct' and t.text == '{':
-            if first_clause is None:
-                return j
-            if toks[j - 1].text == ',':
-                _mark(toks, first_clause, j)
-                return j
-            j = match_close(toks, j) + 1
-            continue
+            return j
         j += 1
     raise ValueError('loop without body at line %d' % toks[i].line)
 
@@ -172,6 +167,20 @@ def _mark_body(toks, lo, hi):
                 i = i + 1
                 # the head's executable tokens may contain blocks/closures: scan them too
                 continue
+        elif t.kind == 'punct' and tx == '->' and i + 4 < hi and toks[i + 1].text == '(' and toks[i + 2].kind == 'ident' \
+                and toks[i + 3].text == ':':
+            # closure with a named result and a contract:  |x: T| -> (r: U) ensures ... { body }
+            c = match_close(toks, i + 1)
+            toks[i + 1].ghost = True
+            toks[i + 2].ghost = True
+            toks[i + 3].ghost = True
+            toks[c].ghost = True
+            j = c + 1
+            if j < hi and toks[j].kind == 'ident' and toks[j].text in SPEC_CLAUSE_KW:
+                b = find_spec_body_open(toks, j, hi)
+                _mark(toks, j, b)
+            i = c + 1
+            continue
         elif t.kind == 'punct' and tx == '#':
             j = i + 1
             if toks[j].text == '!':
@@ -528,6 +537,13 @@ def merge(tmpl_toks, src_exec):
                 # chunks with the following statement: emit insertion right here (after previous exec token)
             # ghost tokens that sit before the first deleted exec token stay in front
             lead = [t for t in tmpl_toks[pos:first] if t.ghost] if i2 > i1 else []
+            if i2 == i1:
+                # pure insertion: after a statement boundary it belongs to the statement that follows, so the
+                # ghost tokens standing between the two statements come first
+                prev_exec = a[i1 - 1] if i1 > 0 else '{'
+                if prev_exec in (';', '{', '}'):
+                    lead = tmpl_toks[pos:first]
+                    pos = first
             out.extend(lead)
             for t in src_exec[j1:j2]:
                 nt = Tok(t.kind, t.text, t.trivia if t.trivia else ' ', t.line)
@@ -654,9 +670,11 @@ def expand_includes(text, base, unit, depth=0):
     return INCLUDE.sub(rep, text)
 
 
-def generate(unit, canary=False):
+def generate(unit, canary=False, expand=True):
     """Fill the template. Sets unit.text and bookkeeping. Raises LostAnchor."""
-    tmpl = expand_includes(open(unit.tmpl_path).read(), os.path.dirname(unit.tmpl_path), unit)
+    tmpl = open(unit.tmpl_path).read()
+    if expand:
+        tmpl = expand_includes(tmpl, os.path.dirname(unit.tmpl_path), unit)
     toks, tail = tokenize(tmpl)
     n = len(toks)
     out_chunks = []
@@ -668,9 +686,7 @@ def generate(unit, canary=False):
         ds = parse_directives(toks[i].trivia) if '//@' in toks[i].trivia else []
         kinds = [d[0] for d in ds]
         for kd, arg in ds:
-            if kd == 'ASSUME':
-                unit.assumes.append(arg)
-            elif kd == 'CONTRACT-OF':
+            if kd == 'CONTRACT-OF':
                 check_contract_of(unit, toks, i, n, arg)
         if 'SRC' in kinds:
             src_arg = [d[1] for d in ds if d[0] == 'SRC'][0]
@@ -733,6 +749,11 @@ def generate(unit, canary=False):
                 et = drop_trailing_commas(et)
                 es = drop_trailing_commas(es)
             status = 'identical'
+            if et != es and os.environ.get('VX_DEBUG'):
+                sm = difflib.SequenceMatcher(a=et, b=es, autojunk=False)
+                for tag, i1, i2, j1, j2 in sm.get_opcodes():
+                    if tag != 'equal':
+                        print('  DIFF %s: template[%s] source[%s]' % (' :: '.join(path), ' '.join(et[max(0,i1-3):i2+3]), ' '.join(es[max(0,j1-3):j2+3])), file=sys.stderr)
             if et == es:
                 gen = ttoks
             else:
@@ -768,9 +789,8 @@ def generate(unit, canary=False):
                     gen2 = gen[:it2.body_open + 1] + c + gen[it2.body_open + 1:]
                 gen = gen2
             out_chunks.append(render(toks[pos:item.start]))
-            start_line = ''.join(out_chunks).count('\n') + gen[0].trivia.count('\n') + 1
-            out_chunks.append(render(gen))
-            end_line = ''.join(out_chunks).count('\n') + 1
+            out_chunks.append(render_safe(gen))
+            start_line, end_line = len(out_chunks) - 1, gen[0].trivia.count('\n')
             for k2, v in hits.items():
                 unit.hits[k2] = unit.hits.get(k2, 0) + v
             unit.items.append({'file': rel, 'path': ' :: '.join(path), 'kind': item.kind, 'status': status,
@@ -805,8 +825,28 @@ def generate(unit, canary=False):
         else:
             head = toks[item.start:item.body_open + 1]
             out_chunks[slot] = render(head) + ' ' + render(cut) + ' }'
+    # line spans of the generated items
+    cum = [0]
+    for c in out_chunks:
+        cum.append(cum[-1] + c.count('\n'))
+    for it in unit.items:
+        ci, lead = it['lines']
+        it['lines'] = (cum[ci] + lead + 1, cum[ci + 1] + 1)
     unit.text = ''.join(out_chunks)
+    unit.assumes = [m.group(1).strip() for m in re.finditer(r'//@ASSUME[ \t]+(.*)', unit.text)]
     return unit
+
+
+def render_safe(toks):
+    out = []
+    prev = None
+    for t in toks:
+        tr = t.trivia
+        if prev is not None and not tr and prev.kind in ('ident', 'num', 'lifetime') and t.kind in ('ident', 'num', 'lifetime', 'str', 'char'):
+            tr = ' '
+        out.append(tr + t.text)
+        prev = t
+    return ''.join(out)
 
 
 def drop_trailing_commas(ts):
@@ -877,14 +917,17 @@ if __name__ == '__main__':
     ap.add_argument('--repo', default='/repo')
     ap.add_argument('--out', default='-')
     ap.add_argument('--canary', action='store_true')
+    ap.add_argument('--rebase', action='store_true', help='development: write the merged text back as the template')
     a = ap.parse_args()
     u = Unit(os.path.basename(a.template).split('.')[0], a.template, a.repo)
     try:
-        generate(u, a.canary)
+        generate(u, a.canary, expand=not a.rebase)
     except LostAnchor as e:
         print('LOST ANCHOR:', e, file=sys.stderr)
         sys.exit(2)
-    if a.out == '-':
+    if a.rebase:
+        open(a.template, 'w').write(u.text)
+    elif a.out == '-':
         sys.stdout.write(u.text)
     else:
         open(a.out, 'w').write(u.text)
